@@ -1,0 +1,23 @@
+//go:build verif
+
+package app
+
+import (
+	"github.com/pokt-network/pocket-core/codec"
+	"github.com/pokt-network/pocket-core/types/module"
+	appsKeeper "github.com/pokt-network/pocket-core/x/apps/keeper"
+	"github.com/pokt-network/pocket-core/x/auth"
+	govKeeper "github.com/pokt-network/pocket-core/x/gov/keeper"
+	nodesKeeper "github.com/pokt-network/pocket-core/x/nodes/keeper"
+	pocketKeeper "github.com/pokt-network/pocket-core/x/pocketcore/keeper"
+)
+
+// Accessors for the verification harness (build tag verif only): the keepers are unexported fields.
+
+func (app *PocketCoreApp) VerifAccountKeeper() auth.Keeper        { return app.accountKeeper }
+func (app *PocketCoreApp) VerifAppsKeeper() appsKeeper.Keeper     { return app.appsKeeper }
+func (app *PocketCoreApp) VerifNodesKeeper() nodesKeeper.Keeper   { return app.nodesKeeper }
+func (app *PocketCoreApp) VerifGovKeeper() govKeeper.Keeper       { return app.govKeeper }
+func (app *PocketCoreApp) VerifPocketKeeper() pocketKeeper.Keeper { return app.pocketKeeper }
+func (app *PocketCoreApp) VerifCodec() *codec.Codec               { return app.cdc }
+func (app *PocketCoreApp) VerifModuleManager() *module.Manager    { return app.mm }
